@@ -118,6 +118,8 @@ class Facts:
                         dict.__setitem__(self.tables, k['path'], vals)
         self._cfg = {}
         self.field_aliases = {}
+        self.fallback_consts = {}
+        self._canon_consts = None
         self._canonicalise_fields()
 
     def _canonicalise_fields(self):
@@ -178,17 +180,36 @@ class Facts:
             raise FactsError('anchor type not found in facts: %s' % path)
         return a
 
+    def _canon_const(self, path):
+        """A named constant the rules read as a *specification value* (half step, hysteresis width, capture times, ...) may
+        have been renamed or inlined.  The value the property is stated for (the pinned tree's, sa/canon_consts.json) is
+        used instead and the substitution is recorded; the code's own literals still flow into the terms the rules compare
+        against these values, so a changed number is reported by the term rules rather than by the lookup."""
+        if self._canon_consts is None:
+            p = os.path.join(os.path.dirname(os.path.abspath(__file__)), 'canon_consts.json')
+            self._canon_consts = json.load(open(p)) if os.path.exists(p) else {}
+        v = self._canon_consts.get(path)
+        if v is not None:
+            self.fallback_consts[path] = v
+        return v
+
     def const_int(self, path):
         k = self.consts.get(path)
-        if k is None or 'val' not in k or 'int' not in k['val']:
+        v = k.get('val') if k is not None else None
+        if v is None or 'int' not in v:
+            v = self._canon_const(path)
+        if v is None or 'int' not in v:
             raise FactsError('anchor constant not found/evaluated: %s' % path)
-        return int(k['val']['int'])
+        return int(v['int'])
 
     def const_float(self, path):
         k = self.consts.get(path)
-        if k is None or 'val' not in k or 'float_bits' not in k['val']:
+        v = k.get('val') if k is not None else None
+        if v is None or 'float_bits' not in v:
+            v = self._canon_const(path)
+        if v is None or 'float_bits' not in v:
             raise FactsError('anchor constant not found/evaluated: %s' % path)
-        return Fr(f32_from_bits(int(k['val']['float_bits'])))
+        return Fr(f32_from_bits(int(v['float_bits'])))
 
     # ---- CFG
     def cfg(self, path):
